@@ -173,11 +173,18 @@ def interleaved_history(ttl_q, k, what, which):
             nested['target'] = target
             nested['log'] = getattr(res, 'log_id', '') if res is not None and res is not sim.em._SUBMIT_SM_SEGMENT else ''
         sim.nested_op = op
-        _ln, out = sim.op_put(100 + k + ttl_q + 5, sim.request('enq', 5000))
-        # a later operation gives stragglers their chance
-        _ln2, out2 = sim.op_put(100 + k + ttl_q + 50, sim.request('enq', 5001))
-        out = out + out2
         fail = None
+        out = ''
+        try:
+            _ln, out = sim.op_put(100 + k + ttl_q + 5, sim.request('enq', 5000))
+            # a later operation gives stragglers their chance
+            _ln2, out2 = sim.op_put(100 + k + ttl_q + 50, sim.request('enq', 5001))
+            out = out + out2
+        except Exception as e:      # noqa
+            # put() of the next request raised: the operation that swept was broken by the one interleaved with it
+            fail = ('storing the next request raised %s(%s) with %s interleaved in the first time-out notification of %d overdue '
+                    'requests' % (type(e).__name__, e, 'a sweep' if what == 'sweep' else 'the late response for request %s'
+                                  % nested.get('target'), k))
         for i in range(1, k + 1):
             n_to = out.count('E=submit:%d:' % i)
             n_resp = 1 if nested.get('log') == 'L%d' % (50 + i) else 0
@@ -244,13 +251,18 @@ def sched_history(rng, ttl_q, fixed=None):
 
         async def run_op(oi):
             kind, msg = ops[oi]
-            if kind == 'P':
-                await sim.corr.put(msg)
-            else:
-                r = await sim.corr.get(msg)
-                state['results'][oi] = r
-            # finished: no longer among the suspended ones
-            state['suspended'] = [(o, f) for (o, f) in state['suspended'] if o != oi]
+            try:
+                if kind == 'P':
+                    await sim.corr.put(msg)
+                else:
+                    r = await sim.corr.get(msg)
+                    state['results'][oi] = r
+            except Exception as e:      # noqa
+                # an operation broken by the ones interleaved with it: an observation, not a failure of the harness
+                state.setdefault('raised', {})[oi] = '%s(%s)' % (type(e).__name__, e)
+            finally:
+                # finished: no longer among the suspended ones
+                state['suspended'] = [(o, f) for (o, f) in state['suspended'] if o != oi]
 
         async def scheduler():
             nonlocal clock
@@ -275,7 +287,8 @@ def sched_history(rng, ttl_q, fixed=None):
                     oi, fut = state['suspended'][idx]
                     state['cur'] = oi
                     evs.append('R@%d@%d' % (idx, clock))
-                    fut.set_result(None)
+                    if not fut.done():
+                        fut.set_result(None)
                 await settle()
             for tk in tasks.values():
                 await tk
@@ -288,9 +301,15 @@ def sched_history(rng, ttl_q, fixed=None):
                 r = state['results'].get(oi)
                 marks.append((msg.sequence_num, ' %s=%d' % ('U' if r is None else 'M', msg.sequence_num)))
         real = 'ok' + ev_str + ''.join(mk for _q, mk in sorted(marks)) + ' tasks=0'
+        for oi, what_ in sorted(state.get('raised', {}).items()):
+            real += ' X=%d:%s' % (oi, what_.split('(')[0])
         # predicate: every request 1..k has at most one outcome (time-out report or matched response), and a report only
         # after its time-to-live
         fail = None
+        if state.get('raised'):
+            oi, what_ = sorted(state['raised'].items())[0]
+            fail = 'correlator operation %d (%s) raised %s under the schedule %s' % (
+                oi, 'put' if ops[oi][0] == 'P' else 'get', what_, ' '.join(e.split('@')[0] + '@' + e.split('@')[1] for e in evs))
         for i in range(1, k + 1):
             n_to = ev_str.count('E=submit:%d:' % i)
             n_m = sum(1 for oi, (kind, msg) in enumerate(ops) if kind == 'G' and msg.sequence_num == i and state['results'].get(oi) is not None)
